@@ -78,7 +78,7 @@ fn c18_k<K: Kind>(case: &PlanCase, trace: &Trace, ctx: &mut Ctx) {
                 } else {
                     // fresh construction: milestones == valid samples drawn, in order, bitwise
                     let samples = &trace.rec.samples[st.samples.0..st.samples.1];
-                    let want: Vec<&Vec<f64>> = samples.iter().filter(|s| case.world.valid(cfg, s)).collect();
+                    let want: Vec<&Vec<f64>> = samples.iter().filter(|s| case.world_by_index(m.world).valid(cfg, s)).collect();
                     let same = want.len() == rm.len() && want.iter().zip(rm.iter()).all(|(a, b)| bits_eq(a, &b.0));
                     if !same {
                         ctx.fail(
@@ -152,7 +152,7 @@ fn c18_k<K: Kind>(case: &PlanCase, trace: &Trace, ctx: &mut Ctx) {
                                     if gap > lvs + tol {
                                         ctx.fail("C18:link-not-motion-checked", format!("link {b}-{a} of length {dd:e}: largest stretch without an accepted validity query {gap:e} > L = {lvs:e} ({n_on} on-segment queries)"));
                                     }
-                                    let run = oracle_b(&ks, &case.world, &rm[a].0, &rm[b].0, lvs);
+                                    let run = oracle_b(&ks, case.world_by_index(m.world), &rm[a].0, &rm[b].0, lvs);
                                     if run >= lvs + tol {
                                         ctx.fail("C18:link-crosses-invalid-stretch", format!("link {b}-{a} crosses an invalid stretch >= {run:e}"));
                                     }
@@ -198,7 +198,7 @@ fn c18_k<K: Kind>(case: &PlanCase, trace: &Trace, ctx: &mut Ctx) {
                     return;
                 }
                 let prob = &case.problems[pi];
-                if !case.world.valid(cfg, &prob.start) {
+                if !case.world_by_index(m.world).valid(cfg, &prob.start) {
                     return;
                 }
                 // reference: start connections, in milestone order, from the ordered log
@@ -317,10 +317,14 @@ fn scripted_case(kind: KindTag, world: usize, radius_factor: f64, seq: &[usize])
             Problem {
                 start: a.states[0].clone(),
                 goal: goal(&a.states[2]),
+                extra_starts: vec![],
+                no_start: false,
             },
             Problem {
                 start: a.states[n - 1].clone(),
                 goal: goal(&a.states[0]),
+                extra_starts: vec![],
+                no_start: false,
             },
         ],
         planner: PlannerTag::PRM,
@@ -341,6 +345,7 @@ fn scripted_case(kind: KindTag, world: usize, radius_factor: f64, seq: &[usize])
         goal_fail_at: None,
         empty_starts: false,
         query_cap: 400_000,
+        world2: None,
     }
 }
 
